@@ -25,6 +25,10 @@ CHECKS["C11"] = dict(cat="model_checking", design="DESIGN.md §4 C11",
    text="UnionDef.tla states exactness of union detection (an interface is a union iff a non-interface named type of its own package has a value-receiver method set implementing it; members and Implements lists exact and in name order). UnionModel.tla models fetchPkgUnions and setImplements with the range over the unions map as explicit nondeterminism; TLC checks it against UnionDef for every assignment of marker methods and receivers in scope and exports the cores. Each core becomes a real package tree (same names in a sub-package, cross-package implementer, unions reached as field / element / map value / alias / named slice / top-level only); TLC judges what the real analysis reported for every interface and every reachable struct node.",
    note="Trusted: TLC; the synthesiser (method sets re-checked against go/types every run). Scope: 2 interfaces x subsets of 2 marker methods, 2-3 types; reach positions and sub-package content are random decorations.",
    tech="TLA+ definition + model (UnionDef/UnionModel.tla) checked by TLC, TLC-enumerated cores rendered to Go, verdict-style trace validation (TraceUnions.tla) of the real analysis")
+CHECKS["C12"] = dict(cat="model_checking", design="DESIGN.md §4 C12, Appendix A.3",
+   text="Analysis.tla models handleType/createType as a stack machine (Enter / Hit / Return, early registration) over a type graph; TLC checks termination-critical invariants (no re-entry of an early-registering type, bounded stack, closure at the end) on every legal program of two named types over {int, N, []N, [2]N, map[string]N} and exports the programs. They and seeded random full-feature packages are analysed by the real code with hook H1 recording enter/hit/return; TraceAnalysis.tla rebuilds the observed stack and memo table from the events, evaluates the invariants at every step (unbounded recursion is decided from the trace, before the runtime dies), follows the model in lock-step (divergence = MODEL-DRIFT, not a violation) and judges the final dump against an independent go/types walk with AnalysisDef.tla: closed, faithful (kind, length, key/element, basic kind, flattened fields), round trip of Type(), consistent links, source order.",
+   note="Trusted: TLC; go/types as oracle of kinds and identity; the oracle walk of the harness (enum/union classification by C10/C11's definitions); hook H1 (add-only, build tag verif). Exhaustive for the two-type universe; the rich forms are random.",
+   tech="TLA+ model of the recursive walk (Analysis/AnalysisModel.tla) checked by TLC + trace validation of hook events and final dumps from the real analysis (TraceAnalysis.tla, AnalysisDef.tla)")
 NOT_APPLICABLE = {}
 ALL = ["C%02d" % i for i in range(1, 21)]
 
